@@ -323,3 +323,36 @@ pub fn rekind_ids(opcode: u16, args: Vec<Arg>) -> Vec<Arg> {
     }
     out
 }
+
+/// The same instruction with every id (result type, result id, every id operand) renamed by `f`.
+/// With an injective `f` applied to a whole instruction sequence, conformance to the grammar is preserved.
+pub fn remap_ids(i: &Inst, f: &dyn Fn(u32) -> u32) -> Inst {
+    Inst {
+        opcode: i.opcode,
+        rtype: i.rtype.map(f),
+        rid: i.rid.map(f),
+        args: i
+            .args
+            .iter()
+            .map(|a| match a {
+                Arg::IdRef(x) => Arg::IdRef(f(*x)),
+                Arg::IdScope(x) => Arg::IdScope(f(*x)),
+                Arg::IdMemSem(x) => Arg::IdMemSem(f(*x)),
+                other => other.clone(),
+            })
+            .collect(),
+    }
+}
+
+/// id relabelling schemes, injective on ids below 6000: descending; scattered (out of order, around 4096); across
+/// 2^16; across 2^22; just below 2^32
+pub const RELABELLINGS: usize = 5;
+pub fn relabel(scheme: usize, id: u32) -> u32 {
+    match scheme {
+        0 => 6000 - id,
+        1 => (id * 37) % 8191 + 1,
+        2 => id + 0xFFF0,
+        3 => id + 0x003F_FFF0,
+        _ => 0xFFFF_E000 + id,
+    }
+}
